@@ -21,6 +21,12 @@ CHECKS['C04'] = ('model_checking',
     'Regex capture semantics assumed (captures are the substrings written); rows from a boundary pool, not symbolic; sheet ids and relative R[..]C[..] forms bounded (selectors). ' + TB,
     'DESIGN.md §3 C04')
 
+CHECKS['C01'] = ('model_checking',
+    'symbolic execution of the real parser with CrossHair/z3 over selector-chosen formula trees; z3 query over the live precedence table',
+    'Bounded symbolic checking: z3 shows the live precedence/arity table orders all operator pairs as the statement does; Operator.ast pops exactly the maximal >=-rank segment for EVERY (symbolic) precedence table; the real Parser().ast is driven over all ordered operator pairs (both groupings, minimal/redundant parentheses, whitespace), operator triples in all 5 tree shapes, unary sign / percent placements, function calls with empty arguments, array literals and reference operators, and its exported text must equal the fully parenthesised rendering of the generating tree.',
+    'Tree shapes, operators and spellings are selector variables (solver-driven concretisation, bounded exhaustive); regexes run concretely; depth <= 3 operators; operand values outside (C02). Known finding C01-sign-run excluded by spelling predicate. ' + TB,
+    'DESIGN.md §3 C01')
+
 NA = {
     'C15': 'the dependency closure is computed over openpyxl worksheets read from .xlsx files while mutating the schedula dispatcher; neither can be given a symbolic state (DESIGN §4)',
     'C16': 'placement is done by openpyxl range iteration zipped with np.ravel and compared by re-reading files: I/O and third-party C code, no encodable kernel (DESIGN §4)',
